@@ -261,7 +261,9 @@ pub fn run(o: &Opts) -> i32 {
                     "status": r.status, "stdout": short(String::from_utf8_lossy(&r.stdout).trim())}));
             }
             // ---- simc under transparent faults: same exact oracle
-            for _k in 0..fault_runs_per_case {
+            // padded files (large, dense in multi-byte characters) get four times the fault runs
+            let fault_runs = if case.origin == "padded" { 4 * fault_runs_per_case } else { fault_runs_per_case };
+            for _k in 0..fault_runs {
                 let hs = rng.next() | 1;
                 let ios = rng.next();
                 run_no += 1;
